@@ -19,9 +19,9 @@ func init() {
 		minNontrivial: 30000,
 		quick: tier{jobs: []job{
 			{name: "corpus", run: "^TestCorpus$", shards: 16, checks: 1, timeout: 20 * time.Minute, env: []string{"GOMAXPROCS=2"}},
-			{name: "sub", run: "^TestPropSub$", shards: 16, checks: 25, timeout: 30 * time.Minute, env: []string{"GOMAXPROCS=2"}},
-			{name: "cc", run: "^TestPropCC$", shards: 16, checks: 60, timeout: 30 * time.Minute, env: []string{"GOMAXPROCS=2"}},
-			{name: "inproc", run: "^TestProp$", shards: 16, checks: 9400, timeout: 30 * time.Minute, env: []string{"GOMAXPROCS=2"}},
+			{name: "sub", run: "^TestPropSub$", shards: 16, checks: 16, timeout: 30 * time.Minute, env: []string{"GOMAXPROCS=2"}},
+			{name: "cc", run: "^TestPropCC$", shards: 16, checks: 40, timeout: 30 * time.Minute, env: []string{"GOMAXPROCS=2"}},
+			{name: "inproc", run: "^TestProp$", shards: 16, checks: 6000, timeout: 30 * time.Minute, env: []string{"GOMAXPROCS=2"}},
 		}},
 		thorough: tier{jobs: []job{
 			{name: "corpus", run: "^TestCorpus$", shards: 16, checks: 1, timeout: 20 * time.Minute, env: []string{"GOMAXPROCS=2"}},
